@@ -204,6 +204,9 @@ class SymTargets:
     def items(self):
         return self.seq
 
+    def __len__(self):
+        return len(self.seq)
+
 
 class SymModel:
     def __init__(self, H):
